@@ -202,9 +202,23 @@ def build_local_fermionic_elements(terms, bases):
 
 
 def build_local_fermionic_dense(terms, bases, like="numpy"):
-    hij = ar.do("zeros", tuple(len(b) for b in bases) * 2, like=like)
+    elements = build_local_fermionic_elements(terms, bases)
 
-    for idx, val in build_local_fermionic_elements(terms, bases).items():
+    # complex coefficients need a complex array, rather than silently
+    # discarding the imaginary part of each element
+    if any(
+        isinstance(val, complex) or "complex" in str(getattr(val, "dtype", ""))
+        for val in elements.values()
+    ):
+        dtype = "complex128"
+    else:
+        dtype = "float64"
+
+    hij = ar.do(
+        "zeros", tuple(len(b) for b in bases) * 2, dtype=dtype, like=like
+    )
+
+    for idx, val in elements.items():
         hij[idx] += val
 
     return hij
